@@ -53,6 +53,13 @@ static uint64_t g_a_sl;
 static const int64_t* g_b_base;
 static int64_t* g_res_base;
 
+/* under the solver the integer operand buffers carry concrete tags (their VALUES are the symbols VF_A / VF_B handed out by the stub): a stage that
+ * overwrites an operand before the conversion reads it - e.g. by using the output, which may alias an operand, as scratch - breaks a tag */
+#define VF_TAG_A(i) ((int64_t)(0x1111000000000000LL + (int64_t)(i)))
+#define VF_TAG_B(i) ((int64_t)(0x2222000000000000LL + (int64_t)(i)))
+#ifndef PALIAS
+#define PALIAS 0 /* PATH 0 only: 1 res == a, 2 res == b (same buffer) */
+#endif
 #ifdef __CPROVER__
 /* contract stub for reim_from_znx64 (C14: exact for |x| < 2^50): which operand and which limb is identified by the pointer */
 static void stub_from_znx64(const REIM_FROM_ZNX64_PRECOMP* p, void* r, const int64_t* x) {
@@ -60,13 +67,19 @@ static void stub_from_znx64(const REIM_FROM_ZNX64_PRECOMP* p, void* r, const int
   const uint64_t nn = (uint64_t)p->m << 1;
   if (__CPROVER_POINTER_OBJECT(x) == __CPROVER_POINTER_OBJECT(g_b_base)) { /* x points into the b / matrix operand */
     uint64_t off = (uint64_t)(__CPROVER_POINTER_OFFSET(x) - __CPROVER_POINTER_OFFSET(g_b_base)) / 8;
-    for (uint64_t i = 0; i < nn; ++i) out[i] = VF_B[off + i];
+    for (uint64_t i = 0; i < nn; ++i) {
+      VF_ASSERT(x[i] == VF_TAG_B(off + i), "operand b still holds its original contents when the conversion reads it (not overwritten by an earlier stage)");
+      out[i] = VF_B[off + i];
+    }
   } else {
     VF_ASSERT(__CPROVER_POINTER_OBJECT(x) == __CPROVER_POINTER_OBJECT(g_a_base), "from_znx64 reads one of the two operands");
     uint64_t off = (uint64_t)(__CPROVER_POINTER_OFFSET(x) - __CPROVER_POINTER_OFFSET(g_a_base)) / 8;
     uint64_t limb = off / g_a_sl;
     VF_ASSERT(off % g_a_sl == 0 && limb < D1(NA_LIMBS), "from_znx64 called on a limb of the vector operand");
-    for (uint64_t i = 0; i < nn; ++i) out[i] = VF_A[limb * NN + i];
+    for (uint64_t i = 0; i < nn; ++i) {
+      VF_ASSERT(x[i] == VF_TAG_A(off + i), "operand a still holds its original contents when the conversion reads it (not overwritten by an earlier stage)");
+      out[i] = VF_A[limb * NN + i];
+    }
   }
 }
 /* contract stub for reim_to_znx64 (C14: result within 1/2 of x/divisor): records x */
@@ -129,13 +142,23 @@ void h_prod(void) {
   g_a_base = a;
   g_a_sl = (PATH == 0) ? NN : ASL;
   g_b_base = b;
+#ifdef __CPROVER__
+  for (uint64_t i = 0; i < aw; ++i) a[i] = VF_TAG_A(i);
+  for (uint64_t i = 0; i < NB_WORDS; ++i) b[i] = VF_TAG_B(i);
+#endif
 #ifndef __CPROVER__
   for (unsigned l = 0; l < NA_LIMBS; ++l)
     for (unsigned i = 0; i < NN; ++i) a[l * g_a_sl + i] = (int64_t)VF_A[l * NN + i];
   for (unsigned i = 0; i < NB_WORDS; ++i) b[i] = (int64_t)VF_B[i];
 #endif
+#if PATH == 0 && PALIAS == 1
+  int64_t* res = a; /* in place on the first operand */
+#elif PATH == 0 && PALIAS == 2
+  int64_t* res = b; /* in place on the second operand */
+#else
   int64_t* res = (int64_t*)vf_alloc_words_raw(D1(NOUT_LIMBS * NN)); /* big result (int64 limbs) */
   for (unsigned i = 0; i < NOUT_LIMBS * NN; ++i) res[i] = 0x0123456789abcdefLL; /* dirty */
+#endif
   g_res_base = res;
 
 #if PATH == 0
